@@ -91,7 +91,7 @@ def cases(tier):
     idx = 0
     for k in range(1, 7):
         for sub in itertools.combinations(SOURCES, k):
-            shapes = ('single', 'last', 'first', 'both') \
+            shapes = ('single', 'last', 'first', 'both', 'repeat') \
                 if 'client' in sub else ('none',)
             for shape in shapes:
                 for kind in ('plain', 'callable', 'template'):
@@ -104,6 +104,15 @@ def cases(tier):
                                'syntax': SYNTAXES[idx % 3]}
     depth = 3 if tier == 'quick' else 4
     levels = [(b, r) for b in BINDERS for r in (0, 1)]
+    # two sibling blocks: what the first one bound (or cached) is gone in
+    # the second; with ncall the outer value is a callable whose result
+    # changes with every call, so a stale cached value is visible
+    for a in levels:
+        for b in levels:
+            for ncall in (0, 1):
+                idx += 1
+                yield {'fam': 'scope', 'nest': [list(a)], 'sib': [list(b)],
+                       'ncall': ncall, 'syntax': SYNTAXES[idx % 3]}
     for d in range(1, depth + 1):
         for nest in itertools.product(range(len(levels)), repeat=d):
             if d == 4 and tier == 'thorough':
@@ -163,6 +172,10 @@ def build_src(case):
             parts['clients'] = [{'zz': ['lit', 1]}, {'n': spec['client']}]
         elif shape == 'first':
             parts['clients'] = [{'n': spec['client']}, {'zz': ['lit', 1]}]
+        elif shape == 'repeat':
+            # the tuple (a, b, a): the same object again in the last place
+            parts['clients'] = [{'n': spec['client']}, {'n': first}]
+            parts['repeat'] = {}
         else:
             parts['clients'] = [{'n': first}, {'n': spec['client']}]
     nodes = [T('[')] + lookup_nodes(case['form']) + [T(']')]
@@ -174,6 +187,8 @@ def observe_src_impl(nodes, parts, syntax, single_client):
     b = {k: ({a: w.build(v) for a, v in parts[k].items()}
              if isinstance(parts[k], dict) else None) for k in parts}
     clients = [w.build(['obj', c]) for c in parts['clients']]
+    if 'repeat' in parts:
+        clients = [clients[0], clients[1], clients[0]]
     cls = ast.template_class(syntax)
     src = ast.to_source(nodes, syntax)
     try:
@@ -200,6 +215,8 @@ def observe_src_ref(nodes, parts):
     b = {k: ({a: w.build(v) for a, v in parts[k].items()}
              if isinstance(parts[k], dict) else None) for k in parts}
     clients = [w.build(['obj', c]) for c in parts['clients']]
+    if 'repeat' in parts:
+        clients = [clients[0], clients[1], clients[0]]
     interp = refsem.Interp()
     try:
         r = interp.call_top(nodes, ctor_mapping=b['ctor_mapping'],
@@ -290,6 +307,10 @@ def build_scope(case):
         return [node]
 
     body = level(0, case['nest'])
+    if case.get('sib'):
+        body = body + probe('mid') + level(0, case['sib'])
+    if case.get('ncall'):
+        ns['n'] = ['probeseq', 'n', [['lit', 'OUT%d' % i] for i in range(40)]]
     if how == 'raise':
         body = [['try', body, [[['HC'], probe('caught')]], None]]
     elif how == 'return':
@@ -331,7 +352,7 @@ def run(case):
         single = case['shape'] == 'single'
         io, ilog, src = observe_src_impl(nodes, parts, case['syntax'], single)
         ro, rlog, unspec = observe_src_ref(nodes, parts)
-        n_def = len(case['sources']) + (case['shape'] == 'both')
+        n_def = len(case['sources']) + (case['shape'] in ('both', 'repeat'))
         tag = 'src:%s:%s' % (case['kind'], case['form'])
     else:
         nodes, ns = build_scope(case)
@@ -341,6 +362,8 @@ def run(case):
         n_def = 1 + sum(1 for b, r in case['nest'] if r)
         tag = 'scope%s:%s' % ('-' + case['how'] if case.get('how') else '',
                               '>'.join(b for b, r in case['nest']))
+        if case.get('sib'):
+            tag += '+' + '>'.join(b for b, r in case['sib'])
     if unspec:
         res.outcome = 'unspec'
         return res
